@@ -839,6 +839,10 @@ func main() {
 	}
 	w("  recursionDecrements := %v\n  recursiveCalls := %d\n  depthZeroTests := %d\n", decrements, nRec, zeroTests)
 	w("  allocAfterSizeCheck := %v\n  allocSitesSized := %d\n", allocOK, allocSites)
+	// D26: in the field loop the pointee of an optional field is allocated (and stored into the destination)
+	// only after the bytes of a fixed-size value are known to be there; it is the only mallocIfPointer there
+	w("  pointeeAfterLengthCheck := %v\n", contains(dec, `t := f\.Type if t\.FixedSize > 0 && len\(b\)-i < t\.FixedSize \{ return i, io\.ErrShortBuffer \} p = d\.mallocIfPointer\(t, p\) if t\.FixedSize > 0 \{ i \+= decodeFixedSizeTypes\(t\.T, b\[i:\], p\) \}`) &&
+		strings.Count(src(dec), "mallocIfPointer(") == 1)
 	w("  typedAllocOK := %v\n  typedAllocSites := %d\n", typedAllocOK, typedAllocSites)
 	// fingerprints of the control structure of the functions the hand-written model describes
 	var skDump strings.Builder
